@@ -27,6 +27,7 @@ CONSTANTS
   EventShapes,  \* set of shapes for 650 events
   EvNames,      \* event names valid on this Tor
   Listeners,    \* listener identities; the name encodes the behaviour (see BehOf)
+  SubmitKinds,  \* which kinds of command the user submits (model checking only)
   Loose,        \* TRUE: explore every behaviour the statement leaves open
   Dev           \* named deviations (historic defects); {} is the mechanism as it is now
 
@@ -103,17 +104,35 @@ M0 == [cmds     |-> <<>>,   \* every command ever queued: [kind |-> "plain"|"cb"
 
 Reset(mm) == [mm EXCEPT !.wroteNow = <<>>, !.dlNow = <<>>, !.cbNow = <<>>]
 
+\* Resolving a command's Deferred runs the user's callbacks synchronously.  Two
+\* user behaviours are modelled because they re-enter the protocol: a "retry"
+\* command submits a plain command from its errback (failure or disconnect),
+\* a "chain" command submits one from its success callback.
+RECURSIVE MaybeIssue(_), QueueCmd(_, _, _), React(_, _, _)
+\* the user's callbacks on command c's Deferred, run when it has outcome o
+React(mm, c, o) ==
+  IF (mm.cmds[c].kind = "retry" /\ o.k \in {"err", "disc"}) \/ (mm.cmds[c].kind = "chain" /\ o.k = "ok")
+  THEN QueueCmd(mm, "plain", {})
+  ELSE mm
+
+\* d.callback / d.errback on a Deferred that already has the user's callbacks
 Fire(mm, c, o) ==
   IF c = 0 THEN [mm EXCEPT !.exc = TRUE]
-  ELSE IF mm.res[c].k = "p" THEN [mm EXCEPT !.res[c] = o] ELSE [mm EXCEPT !.exc = TRUE]
+  ELSE IF mm.res[c].k # "p" THEN [mm EXCEPT !.exc = TRUE]
+  ELSE React([mm EXCEPT !.res[c] = o], c, o)
 
 MaybeIssue(mm) ==
   IF mm.command # 0 \/ mm.queue = <<>> THEN mm
   ELSE LET c  == Head(mm.queue)
            m1 == [mm EXCEPT !.queue = Tail(@), !.command = c]
        IN IF mm.lost
-          THEN LET m2 == Fire(m1, c, Out("disc", "", <<>>))
-               IN IF "c03_stuck" \in Dev THEN m2 ELSE [m2 EXCEPT !.command = 0]
+          THEN \* already_fired(d): d is the Deferred queue_command is about to return, so the
+               \* user's callbacks are attached (and run) only after queue_command has returned
+               IF mm.res[c].k # "p" THEN [m1 EXCEPT !.exc = TRUE]
+               ELSE LET o  == Out("disc", "", <<>>)
+                        m2 == [m1 EXCEPT !.res[c] = o]
+                    IN IF "c03_stuck" \in Dev THEN React(m2, c, o)
+                       ELSE React([m2 EXCEPT !.command = 0], c, o)
           ELSE [m1 EXCEPT !.defer = c, !.wire = Append(@, c), !.wroteNow = Append(@, c)]
 
 QueueCmd(mm, kind, names) ==
@@ -213,7 +232,7 @@ RECURSIVE FailAll(_, _)
 FailAll(mm, cs) ==
   IF cs = <<>> THEN mm
   ELSE LET c == Head(cs) IN
-       FailAll(IF mm.res[c].k = "p" THEN [mm EXCEPT !.res[c] = Out("disc", "", <<>>)] ELSE mm, Tail(cs))
+       FailAll(IF mm.res[c].k = "p" THEN Fire(mm, c, Out("disc", "", <<>>)) ELSE mm, Tail(cs))
 
 \* connectionLost
 LoseM(mm) ==
@@ -258,7 +277,7 @@ Init ==
   /\ cnt = [sub |-> 0, lop |-> 0, post |-> 0, disc |-> 0]
 
 Submit(kind) ==
-  /\ kind \in {"plain", "cb"}
+  /\ kind \in {"plain", "cb", "retry", "chain"}
   /\ m' = QueueCmd(Reset(m), kind, {})
   /\ cnt' = IF m.lost THEN [cnt EXCEPT !.post = @ + 1] ELSE [cnt EXCEPT !.sub = @ + 1]
   /\ UNCHANGED <<pending, cur, replies, nline, nev, reg, exp, may>>
@@ -329,7 +348,7 @@ Lose ==
   /\ UNCHANGED <<replies, nline, nev, reg, exp, may, cnt>>
 
 Next ==
-  \/ \E k \in {"plain", "cb"} : Submit(k) /\ (IF m.lost THEN cnt.post < MaxPost ELSE cnt.sub < MaxCmd)
+  \/ \E k \in SubmitKinds : Submit(k) /\ (IF m.lost THEN cnt.post < MaxPost ELSE cnt.sub < MaxCmd)
   \/ \E l \in Listeners, n \in EvNames : (AddL(l, n) \/ RemL(l, n)) /\ cnt.lop < MaxLop /\ ~m.lost
   \/ WhenDisc /\ cnt.disc < MaxDisc
   \/ \E rs \in ReplyShapes : BeginReply(rs[1], rs[2])
